@@ -11,6 +11,9 @@ CONSTANTS
   SidecarNextSeq = FALSE
   LineageLocked = TRUE
   SecondInput = FALSE
+  Tasks = {"k1"}
+  TaskGuarded = TRUE
+  Cold = FALSE
   Guarded = TRUE
 INVARIANTS TypeOK GapFree AckedOnce MutexHeld
 PROPERTY AppendOnly
